@@ -26,7 +26,8 @@ from common import coq_list, coq_z
 THEOREMS = ["C20_status", "C20_caught", "C20_total", "C20_compare_step_total",
             "C20_equiv_sound", "C20_equiv_sound_partial", "C20_equiv_sound_refuted",
             "C20_missing_attributes", "C20_equiv_complete",
-            "C20_equiv_detects_example", "C20_tables_nonempty"]
+            "C20_equiv_detects_example", "C20_tables_nonempty", "C20_failed_step_kept",
+            "C20_failed_step_lost_without_return"]
 
 PRELUDE = ("From Coq Require Import List ZArith String.\n"
            "From Basyx Require Import model.Compliance model.ComplianceObs gen.Gen_Compliance proofs.ComplianceProofs.\n"
@@ -415,11 +416,15 @@ def collections_store():
     return model.DictObjectStore([sm, sm2, aas, cd, cd2])
 
 
-def unordered_list_store():
+def unordered_list_store(before=0, after=0, inside=1):
+    """a submodel with a property, an unordered SubmodelElementList and another property, and a second submodel"""
     from basyx.aas import model
-    sml = model.SubmodelElementList("l", model.Property, [model.Property(None, model.datatypes.Int, 1)],
+    sml = model.SubmodelElementList("l", model.Property, [model.Property(None, model.datatypes.Int, inside)],
                                     value_type_list_element=model.datatypes.Int, order_relevant=False)
-    return model.DictObjectStore([model.Submodel("urn:x:sml", [sml])])
+    return model.DictObjectStore([
+        model.Submodel("urn:x:sml", [model.Property("a_before", model.datatypes.Int, before), sml,
+                                     model.Property("z_after", model.datatypes.Int, after)]),
+        model.Submodel("urn:x:sml2", [model.Property("p", model.datatypes.Int, after)])])
 
 
 # ------------------------------------------------------------------ running the check functions
@@ -436,6 +441,9 @@ def functions():
            "xml.check_xml_files_equivalence": cx.check_xml_files_equivalence,
            "aasx.check_aasx_files_equivalence": ca.check_aasx_files_equivalence}
     return one, two
+
+
+REPORT_ISSUES = []     # (function, inputs, step index, statuses): a SUCCESS step that carries an ERROR record
 
 
 def detach_managers(only=None):
@@ -462,6 +470,10 @@ def call(fn, *paths, cleanup=True):
     finally:
         if cleanup:
             detach_managers(m)
+    for k, s in enumerate(m.steps):
+        if int(s.status) == 0 and any(r.levelno >= logging.ERROR for r in s.log_list):
+            REPORT_ISSUES.append((getattr(fn, "__module__", "?").split("_")[-1] + "." + getattr(fn, "__name__", "?"),
+                                  [os.path.basename(p) for p in paths], k, [int(x.status) for x in m.steps]))
     return raised, [int(s.status) for s in m.steps], int(m.status)
 
 
@@ -515,7 +527,82 @@ def history_files(tmp):
     files["aasx"]["broken-object-aasx"] = pa
     for ext in files:
         files[ext]["missing"] = os.path.join(tmp, "hist-does-not-exist")
+    # the example data itself (what check_aas_example must accept) and a copy with one value changed
+    import datetime
+    import pyecma376_2
+    from basyx.aas.adapter.json import read_aas_json_file
+    from basyx.aas.examples.data import create_example, create_example_aas_binding
+    cp = pyecma376_2.OPCCoreProperties()
+    cp.created = datetime.datetime(2020, 1, 1, 0, 0, 0)
+    cp.creator = "Eclipse BaSyx Python Testing Framework"
+    cp.description = "Test_Description"
+    cp.lastModifiedBy = "Eclipse BaSyx Python Testing Framework Compliance Tool"
+    cp.modified = datetime.datetime(2020, 1, 1, 0, 0, 1)
+    cp.revision = "1.0"
+    cp.version = "2.0.1"
+    cp.title = "Test Title"
+
+    def mutated(store, name):
+        p = os.path.join(tmp, name + ".src.json")
+        write_store(store, "json", p)
+        doc = canonical_doc(json.load(open(p, encoding="utf-8")))
+        path = next(pa for pa, fr in leaves(doc) if pa and pa[-1] == "value" and fr and fr[-1][0] == "Property"
+                    and isinstance(_get(doc, pa), str) and "valueId" not in pa)
+        p2 = os.path.join(tmp, name + ".mutated.json")
+        json.dump(mutate_leaf(doc, path), open(p2, "w", encoding="utf-8"))
+        with open(p2, encoding="utf-8") as f:
+            return p2, read_aas_json_file(f)
+    files["json"]["example"] = os.path.join(tmp, "hist-example.json")
+    write_store(create_example(), "json", files["json"]["example"])
+    files["xml"]["example"] = os.path.join(tmp, "hist-example.xml")
+    write_store(create_example(), "xml", files["xml"]["example"])
+    files["aasx"]["example"] = os.path.join(tmp, "hist-example.aasx")
+    write_store(create_example_aas_binding(), "aasx-xml", files["aasx"]["example"], core=cp)
+    pm, stm = mutated(create_example(), "hist-example")
+    files["json"]["example-mutated"] = pm
+    files["xml"]["example-mutated"] = os.path.join(tmp, "hist-example-mutated.xml")
+    write_store(stm, "xml", files["xml"]["example-mutated"])
+    _, stb = mutated(create_example_aas_binding(), "hist-binding")
+    files["aasx"]["example-mutated"] = os.path.join(tmp, "hist-example-mutated.aasx")
+    write_store(stb, "aasx-xml", files["aasx"]["example-mutated"], core=cp)
     return files
+
+
+def _get(doc, path):
+    for k in path:
+        doc = doc[k]
+    return doc
+
+
+EXAMPLE_KINDS = ("example", "example-mutated")
+FIRST_CALL_CHILD = (
+    "import sys, json, logging\n"
+    "import c20\n"
+    "logging.getLogger('basyx').addHandler(logging.NullHandler())\n"
+    "one, two = c20.functions()\n"
+    "fn = one.get(sys.argv[1]) or two[sys.argv[1]]\n"
+    "raised, st, ov = c20.call(fn, *sys.argv[2:])\n"
+    "print('@@' + json.dumps([type(raised).__name__ if raised is not None else None, st]))\n")
+
+
+def first_call_verdicts(jobs, parallel=6):
+    """the verdict of each (function, paths) as the first and only call of a fresh interpreter"""
+    import subprocess
+    import sys
+    res, running, pending = {}, [], list(jobs)
+
+    def reap(job, p):
+        out, _ = p.communicate()
+        m = re.search(r"@@(.*)", out)
+        res[job] = tuple(json.loads(m.group(1))) if m else ("child-failed", out[-300:])
+    while pending or running:
+        while pending and len(running) < parallel:
+            job = pending.pop(0)
+            running.append((job, subprocess.Popen([sys.executable, "-c", FIRST_CALL_CHILD, job[0]] + list(job[1]),
+                                                  stdout=subprocess.PIPE, stderr=subprocess.DEVNULL, text=True)))
+        job, p = running.pop(0)
+        reap(job, p)
+    return {k: (v[0], v[1]) for k, v in res.items()}
 
 
 def check_history(chk, rng, quick, tmp, esc_model):
@@ -534,8 +621,9 @@ def check_history(chk, rng, quick, tmp, esc_model):
         for fname in sorted(f for f in one if f.startswith(ext + ".")):
             for kind in kinds:
                 steps.append((fname, (kind,)))
-        for a in kinds:
-            for b in kinds:
+        pair_kinds = [k for k in kinds if k not in EXAMPLE_KINDS]
+        for a in pair_kinds:
+            for b in pair_kinds:
                 if a <= b:
                     steps.append((eq[ext], (a, b)))
     rng.shuffle(steps)
@@ -548,6 +636,35 @@ def check_history(chk, rng, quick, tmp, esc_model):
         else:
             extra.append((eq[ext], (rng.choice(kinds), rng.choice(kinds))))
     steps += extra
+    # the example checks once more at the end, after everything else (and after each other)
+    steps += [("aasx.check_aas_example", ("example",)), ("json.check_aas_example", ("example",)),
+              ("xml.check_aas_example", ("example",)), ("json.check_aas_example", ("example-mutated",)),
+              ("xml.check_aas_example", ("example-mutated",)), ("aasx.check_aas_example", ("example-mutated",)),
+              ("aasx.check_aas_example", ("example",)), ("json.check_aas_example", ("example",))]
+    # create_example() hands out independent objects: changing what one call returned (or building the AASX
+    # binding) must not show in the next call's result
+    from basyx.aas.examples.data import create_example, create_example_aas_binding
+    from basyx.aas import model as _model
+
+    def example_doc(tag):
+        p = os.path.join(tmp, f"hist-independence-{tag}.json")
+        write_store(create_example(), "json", p)
+        return canonical_doc(json.load(open(p, encoding="utf-8")))
+    d0 = example_doc("a")
+    victim = create_example()
+    for o in victim:
+        if isinstance(o, _model.Submodel):
+            o.id_short = "Changed" + (o.id_short or "")
+            for e in list(o.submodel_element)[:1]:
+                o.submodel_element.remove(e)
+    create_example_aas_binding()
+    chk.seen(("example-independence",), nontrivial=True)
+    if example_doc("b") != d0:
+        chk.fail("C20:example-data:not-independent-between-calls",
+                 "create_example() returns other data after an earlier result was modified / after "
+                 "create_example_aas_binding() was called",
+                 {"how": "tools/c20.py check_history: modify the result of create_example(), call create_example_aas_binding(), "
+                         "serialise create_example() again"})
 
     def run(step, cleanup):
         fname, kinds = step
@@ -558,9 +675,24 @@ def check_history(chk, rng, quick, tmp, esc_model):
     detach_managers()
     history = [run(s, cleanup=False) for s in steps]            # as the tool leaves the process
     detach_managers()
+    # first-call verdicts from really fresh interpreters: for every example check (quick) / every distinct step
+    # (thorough); the other steps are compared with the same call made after removing all handlers
+    distinct = list(dict.fromkeys(s for s in steps if not quick or s[0].endswith("check_aas_example")))
+    fresh = first_call_verdicts([(s[0], tuple(files[s[0].split(".")[0]][k] for k in s[1])) for s in distinct])
+    fresh = {s: fresh[(s[0], tuple(files[s[0].split(".")[0]][k] for k in s[1]))] for s in distinct}
+    chk.cov["history_first_call_processes"] = len(fresh)
     reported = set()
     for k, (step, (got, raised)) in enumerate(zip(steps, history)):
-        want, _ = run(step, cleanup=True)                         # the same call as the first of its process
+        want = (fresh[step][0], fresh[step][1]) if step in fresh else run(step, cleanup=True)[0]
+        if step[0].endswith("check_aas_example") and step[1][0] in EXAMPLE_KINDS and raised is None:
+            ok = all(x == 0 for x in got[1]) if step[1][0] == "example" else max(got[1], default=0) != 0
+            if not ok and ("abs", step[0], step[1][0]) not in reported:
+                reported.add(("abs", step[0], step[1][0]))
+                chk.fail(f"C20:example:{'rejected' if step[1][0] == 'example' else 'mutated-accepted'}:{step[0]}",
+                         f"{step[0]} on {'the example data itself' if step[1][0] == 'example' else 'the example data with one value changed'} "
+                         f"as call number {k + 1} of the process: steps {got[1]}",
+                         {"input_kind": "history", "step": k, "function": step[0], "inputs": list(step[1]),
+                          "earlier_calls": [[s[0], list(s[1])] for s in steps[:k]][-12:]})
         chk.seen(("history", k, step), nontrivial=True)
         chk.count("history-steps")
         rp = {"input_kind": "history", "step": k, "function": step[0], "inputs": list(step[1]),
@@ -883,6 +1015,7 @@ def check_typed_values(chk, rng, quick, tmp, esc_model):
 def run(chk):
     rng = chk.rng
     quick = chk.tier == "quick"
+    del REPORT_ISSUES[:]
     logging.disable(logging.NOTSET)
     logging.getLogger("basyx").addHandler(logging.NullHandler())   # SDK warnings about crafted inputs: not part of the verdict
     # --- tie T: regenerate the tables from the current sources
@@ -943,6 +1076,14 @@ def run(chk):
         check_files(chk, rng, quick, tmp, esc_model, compared_model)
         check_typed_values(chk, rng, quick, tmp, esc_model)
         check_history(chk, rng, quick, tmp, esc_model)
+        seen_issue = set()
+        for fname, inputs, k, statuses in REPORT_ISSUES:
+            if fname not in seen_issue:
+                seen_issue.add(fname)
+                chk.fail(f"C20:report:error-record-under-success-step:{fname}",
+                         f"{fname}({', '.join(inputs)}): step {k} has status SUCCESS but carries an ERROR log record; "
+                         f"steps {statuses}", {"function": fname, "inputs": inputs})
+        chk.cov["report_consistency_issues"] = len(REPORT_ISSUES)
     finally:
         shutil.rmtree(tmp, ignore_errors=True)
     chk.trusted = [
@@ -1167,6 +1308,22 @@ def check_files(chk, rng, quick, tmp, esc_model, compared_model):
             chk.fail(f"C20:equivalence:equal-data-rejected:unordered-list:{ext}",
                      f"{eq_fn[ext]}: a file holding a SubmodelElementList with orderRelevant=false compared with "
                      f"itself: steps {statuses}", rp)
+        # DIFFERENT data around the unordered list (before it, inside it, after it in the same submodel, in the next
+        # submodel): whatever the checker's refusal does to the report, the verdict must not be SUCCESS
+        for where, kw in (("before", {"before": 5}), ("inside", {"inside": 5}), ("after", {"after": 5})):
+            pd = os.path.join(tmp, f"unordered-{where}." + ext)
+            write_store(unordered_list_store(**kw), fmt, pd)
+            for a, b, direction in ((pu, pd, "ab"), (pd, pu, "ba")):
+                raised, statuses, overall = call(two[eq_fn[ext]], a, b)
+                chk.seen(("equiv-unordered-diff", fmt, where, direction), nontrivial=True)
+                chk.count("equivalence=different-data-around-unordered-list")
+                rp2 = {"input_kind": f"unordered-list-different in {fmt},", "where": where, "direction": direction}
+                if raised is not None:
+                    report_raise(chk, eq_fn[ext], raised, esc_model, rp2)
+                elif overall == 0:
+                    chk.fail(f"C20:equivalence:different-data-accepted:{where}-unordered-list:{ext}",
+                             f"{eq_fn[ext]}: two files that differ in a property {where} a SubmodelElementList with "
+                             f"orderRelevant=false are reported as equal: steps {statuses}", rp2)
     # check_aas_example on the example data with its lists made unordered: FAILED is the right verdict
     from basyx.aas.adapter.json import read_aas_json_file
     from basyx.aas.examples.data import create_example, create_example_aas_binding
@@ -1389,6 +1546,18 @@ def replay(path):
             raised, statuses, overall = call(two[fn], p0, p1) if fn in two else call(one[fn], p1)
             print(fn, "raised:", repr(raised), "steps:", statuses, "overall:", overall)
             return 1 if raised is not None or overall != 0 else 0
+        if kind.startswith("unordered-list-different"):
+            fmt = next(f for f in ("aasx-json", "json", "xml") if f" in {f}," in kind)
+            ext = fmt.split("-")[0]
+            pa, pb = os.path.join(tmp, "u0." + ext), os.path.join(tmp, "u1." + ext)
+            write_store(unordered_list_store(), fmt, pa)
+            write_store(unordered_list_store(**{rp["where"]: 5}), fmt, pb)
+            fn = {"json": "json.check_json_files_equivalence", "xml": "xml.check_xml_files_equivalence",
+                  "aasx": "aasx.check_aasx_files_equivalence"}[ext]
+            a, b = (pa, pb) if rp.get("direction") != "ba" else (pb, pa)
+            raised, statuses, overall = call(two[fn], a, b)
+            print(fn, "raised:", repr(raised), "steps:", statuses, "overall:", overall)
+            return 1 if raised is not None or overall == 0 else 0
         if "orderRelevant=false" in kind:
             from basyx.aas.adapter.json import read_aas_json_file
             from basyx.aas.examples.data import create_example, create_example_aas_binding
